@@ -70,15 +70,28 @@ Ltac pw_step :=
   | |- context [qlt ?a ?b] => destruct (qlt_spec a b)
   | |- context [qle ?a ?b] => destruct (qle_spec a b)
   | |- context [qeq ?a ?b] => destruct (qeq_spec a b)
-  end; cbn [orb andb negb]; cbv beta iota.
+  end; cbn [orb andb negb]; cbv beta iota; try (exfalso; lra).
 Ltac pw_abs :=
   repeat match goal with
-  | |- context [Qabs ?a] => pattern (Qabs a); apply Qabs_case; intro
+  | |- context [Qabs ?a] =>
+      lazymatch goal with H : Qabs a == _ |- _ => fail | _ => idtac end;
+      destruct (Qlt_le_dec a 0);
+      [ assert (Qabs a == - a) by (apply Qabs_neg; lra) | assert (Qabs a == a) by (apply Qabs_pos; lra) ]
+  end.
+(* lra does not know division: rewrite e / c (c a literal) as e * (1/c computed) *)
+Ltac qinv_const :=
+  unfold Qdiv in *;
+  repeat match goal with
+  | |- context [Qinv (Qmake ?n ?d)] =>
+      let v := eval vm_compute in (Qinv (Qmake n d)) in change (Qinv (Qmake n d)) with v in *
+  | H : context [Qinv (Qmake ?n ?d)] |- _ =>
+      let v := eval vm_compute in (Qinv (Qmake n d)) in change (Qinv (Qmake n d)) with v in *
   end.
 Ltac pw_fin :=
+  qinv_const;
   cbn [oeq2 odflt olift2 oadd osub omul odiv oneg oabs option_map];
   first [ lra | reflexivity | (exfalso; lra) | (exfalso; assumption) ].
-Ltac pw_solve := intros; pw_neq; repeat pw_step; pw_abs; pw_fin.
+Ltac pw_solve := intros; pw_neq; pw_abs; repeat pw_step; pw_fin.
 
 (* abstract-field vocabulary for the sinc family *)
 Definition keqb (K : fld) (a b : K) : bool := if fdec K a b then true else false.
@@ -94,6 +107,7 @@ Definition kz (K : fld) (z : Z) : K :=
   match z with Z0 => f0 | Zpos p => kpos K p | Zneg p => fopp (kpos K p) end.
 Definition k_iseven (o : option Z) : bool := match o with Some k => Z.even k | None => false end.
 Definition k_isodd (o : option Z) : bool := match o with Some k => Z.odd k | None => false end.
+Definition k_isint (o : option Z) : bool := match o with Some _ => true | None => false end.
 (* SymPy's sinc (unnormalised) *)
 Definition spec_sinc (K : fld) (sn : K -> K) (x : K) : K := if keqb K x f0 then f1 else fdiv (sn x) x.
 (* the value of sin(M pi x)/(M sin(pi x)) continued to an integer x = k, M = m *)
